@@ -359,7 +359,10 @@ def rule_6(ctx):
         return Rec(cls=XLT + 'Boolean', value=v)
     vals = [('-1', N(-1)), ('0', N(0)), ('2.5', N(2.5)), ('0.1+0.2', N(0.1 + 0.2)), ('0.3', N(0.3)),
             ('""', T('')), ('"a"', T('a')), ('"A"', T('A')), ('"B"', T('B')), ('"1"', T('1')),
+            ('"10"', T('10')), ('"9"', T('9')), ('"1.0"', T('1.0')), ('"007"', T('007')), ('"7"', T('7')), ('"1a"', T('1a')), ('"1e1"', T('1e1')),
+            ('"ab"', T('ab')), ('"true"', T('true')),
             ('FALSE', B(False)), ('TRUE', B(True)), ('blank', Rec(cls=XLT + 'Blank', value=None))]
+    numeric_looking = {'"10"', '"9"', '"1.0"', '"007"', '"7"', '"1a"', '"1e1"', '"ab"', '"true"'}
     kind = {lbl: v.f['cls'].rpartition(':')[2] for lbl, v in vals}
     byl = dict(vals)
 
@@ -380,6 +383,8 @@ def rule_6(ctx):
         for lb, b in vals:
             if kind[la] == 'Text' and kind[lb] != 'Text':
                 continue
+            if (la in numeric_looking or lb in numeric_looking) and not (kind[la] == 'Text' and kind[lb] == 'Text'):
+                continue        # the further texts are compared with texts (their place among the other classes is decided by "1", "a")
             for sym, fn in ops.items():
                 want = fn(key(la, lb), key(lb, la))
                 it = Interp(ctx.a, fm, {'a': a, 'b': b}, inline_pkg=True, world=world)
@@ -395,7 +400,41 @@ def rule_6(ctx):
                            f'the comparison {la} {sym} {lb} gives {got!r}, expected {want!r} under the one total order (numbers < texts < FALSE < TRUE, '
                            'texts case-insensitive, a blank is the 0 / "" / FALSE of its partner): exactly one of <, =, > may hold and <=, >=, <> '
                            'must follow from them')
-    ctx.floor(700, 'comparison rows')
+    ctx.floor(1500, 'comparison rows')
+
+
+def rule_8(ctx):
+    """The ordered comparisons as library calls on native Python arguments, all in ONE process (one world, the calls one after
+    the other, forwards and backwards): a native value is the value of its own type - True is a boolean, 1.0 a number - whatever
+    was compared before. (= and <> on native arguments and a text on the left of a non-text are the known findings of C09.3 /
+    C09.5's sibling rule and are left to them.)"""
+    import operator as op_
+    from . import values as V
+    from xlsa.guards import World
+    natives = [('True', True, (2, 1)), ('1.0', 1.0, (0, 1.0)), ('1', 1, (0, 1)), ('False', False, (2, 0)), ('0.0', 0.0, (0, 0.0)), ('0', 0, (0, 0)),
+               ('2.5', 2.5, (0, 2.5)), ("'abc'", 'abc', (1, 'ABC')), ("'ABD'", 'ABD', (1, 'ABD')), ("''", '', (1, ''))]
+    table = {'OP_LT': op_.lt, 'OP_LE': op_.le, 'OP_GT': op_.gt, 'OP_GE': op_.ge}
+    calls = [(name, fn, a, b) for name, fn in table.items() for a in natives for b in natives if not (a[2][0] == 1 and b[2][0] != 1)]
+    if ctx.tier == 'quick':
+        calls = calls[::2] + calls[1::6]
+    n = 0
+    for oname, order in (('forwards', calls), ('backwards', list(reversed(calls)))):
+        world = World()
+        wrong = {}
+        for name, fn, (la, a, ka), (lb, b, kb) in order:
+            out = V.call(ctx, name, [a, b], world=world)
+            got = V.norm(out.value) if out.end == 'return' else (out.end, V.norm(out.value))
+            val = got[1] if isinstance(got, tuple) and len(got) == 2 and got[0] == 'Boolean' else got
+            n += 1
+            if val is not fn(ka, kb):
+                wrong.setdefault(name, []).append(f'{name}({la}, {lb}) = {got!r} instead of {fn(ka, kb)}')
+        for name in table:
+            f = V.registered(ctx, name)
+            ctx.expect(name not in wrong, f.node, f'{name} on native arguments, calls made {oname} in one process',
+                       f'{"; ".join(wrong.get(name, [])[:4])}: a native argument is the value of its own Python type (True a boolean, 1.0 a number) '
+                       'whatever was compared earlier in the process')
+    ctx.floor(8, 'four ordered comparisons x two call orders')
+    ctx.note(f'{n} calls')
 
 
 def rule_7(ctx):
@@ -413,4 +452,5 @@ RULES = [
     ('C09.5', 'comparison wrappers', rule_5),
     ('C09.6', 'pairwise comparison table over representative values of every class', rule_6),
     ('C09.7', 'constant cells evaluate to the value class of their content ("" is a text, not a blank)', rule_7),
+    ('C09.8', 'ordered comparisons on native arguments in one process, in both call orders', rule_8),
 ]
